@@ -48,11 +48,22 @@ def shaped_files():
     yield {'cls': 'sparse-ids', 'insts': ['#7=NODE($,$,7);', '#1000=NODE(#7,$,1);', '#999999=NODE(#1000,#7,2);', "#2147483000=HOLDER((#7,#999999),#1000,'big');"]}
     for s in ("'#1'", "'(#1)'", "'a;#1=NODE($,$,1);'", "'=#2'", "'/*#1*/'", "'it''s #1'", "'\\X\\23 1'", "'#'", "')'"):
         yield {'cls': 'string-content', 'detail': s, 'insts': [N(1), N(2), "#3=HOLDER((#2),$,%s);" % s]}
+    # a comment at every token boundary of a simple and of a complex instance
+    for c in ('/* c */', '/*(*/'):
+        for form in ('#2%s=NODE(#1,$,2);', '#2=%sNODE(#1,$,2);', '#2=NODE%s(#1,$,2);', '#2=NODE(%s#1,$,2);', '#2=NODE(#1%s,$,2);', '#2=NODE(#1,$,2%s);', '#2=NODE(#1,$,2)%s;',
+                     '#2=%s(SUB2(5)SUP(#1));', '#2=(%sSUB2(5)SUP(#1));', '#2=(SUB2%s(5)SUP(#1));', '#2=(SUB2(5)%sSUP(#1));', '#2=(SUB2(5)SUP(#1)%s);'):
+            yield {'cls': 'comment-at-token-boundary', 'detail': form % c, 'where': form % '@', 'insts': [N(1), form % c, N(3, 2)]}
     for c in ('/* #1 */', '/* ; */', '/* ( */', "/* ' */", '/* #9=X(); */'):
         yield {'cls': 'comment-between-instances', 'detail': c, 'insts': [N(1), c, N(2, 1), c]}
         yield {'cls': 'comment-inside-instance', 'detail': c, 'insts': [N(1), '#2=NODE(%s#1,$,2);' % c, '#3=NODE($,$%s,3);' % c]}
-    for sp in ('#1 =NODE($,$,1);', '#1= NODE($,$,1);', '#1=NODE ($,$,1);', '#1=NODE( $ , $ , 1 ) ;', '#1\n=\nNODE($,\n$,1);'):
+    for sp in ('#1 =NODE($,$,1);', '#1= NODE($,$,1);', '#1=NODE ($,$,1);', '#1=NODE( $ , $ , 1 ) ;', '#1\n=\nNODE($,\n$,1);', '#1=NODE\n($,$,1);', '#1=NODE\t($,$,1);',
+               '#1=NODE\r\n($,$,1);', '#1=\nNODE($,$,1);'):
         yield {'cls': 'spacing', 'detail': sp.replace('\n', '\\n'), 'insts': [sp, N(2, 1)]}
+
+
+def nocomment(b):
+    """STEPwrite text without the Part 21 comments the eager reader keeps with an instance (comments need not survive)"""
+    return re.sub(rb'/\*.*?\*/\s*', b'', b, flags=re.S).strip()
 
 
 def file_of(insts):
@@ -124,7 +135,7 @@ def run_file(case):
     try:
         o = drv.kv(lzcmd('open ' + path)[0])
         if o.get('sections', 1) == 0:
-            return [('open-failed/%s' % ctx, 'the lazy loader registers no data section for this conforming file (%s): %s' % (case.get('detail', ''), lz._readlog()[-160:].decode('latin1').strip()), case)], stats
+            return [('open-failed/%s' % (ctx if ctx != 'comment-at-token-boundary' else 'at:' + case['where']), 'the lazy loader registers no data section for this conforming file (%s): %s' % (case.get('detail', ''), lz._readlog()[-160:].decode('latin1').strip()), case)], stats
         idx = {}
         for l in lzcmd('index'):
             f = l.decode('latin1').split(' ')
@@ -178,7 +189,7 @@ def run_file(case):
                     txt = bytes.fromhex(a[5]) if len(a) > 5 else b''
                     if not same:
                         viol.append(('load-twice-differs', 'loading #%d twice gives two objects' % step, dict(case, history=hist + [i])))
-                    if txt != eager[step][1]:
+                    if nocomment(txt) != nocomment(eager[step][1]):
                         why = 'reference-unresolved' if b'$' in txt and b'$' not in eager[step][1] else 'text'
                         viol.append(('load-serialisation/%s/%s' % (ctx, why), 'after loads %s, #%d serialises as %r, eagerly read %r' % (hist + [i], step, txt.decode('latin1').strip(), eager[step][1].decode('latin1').strip()),
                                      dict(case, history=hist + [i])))
@@ -207,6 +218,9 @@ def run_file(case):
     except drv.Crash as e:
         lz.kill()
         viol.append(('crash/%s/%s' % (e.key()[0], e.key()[1]), 'the lazy loader crashed on %r (%s)' % (e.cmd, ctx), dict(case, log=e.log[-800:].decode('latin1'))))
+    if ctx == 'comment-at-token-boundary' and viol:
+        # keyed by the place of the comment: which places the scanner gets wrong is a finding each
+        return [('comment-handling/at:%s' % case['where'], viol[0][1], case)], stats
     if ctx.startswith('comment-') and viol:
         # one root cause: comments are not token separators for the index scanner
         return [('comment-handling/%s' % ctx, viol[0][1], case)], stats
@@ -251,6 +265,8 @@ def main():
             chk.sample({'cls': c['cls'], 'insts': c['insts']}, maxn=6)
         for k, w, case in viol:
             chk.outcome(k.split('/')[0])
+            if k.startswith(('eager-rejects/', 'eager-crash/')):
+                continue            # no eager reading to compare with: that file is C01's / C05's to judge, nothing is claimed here
             chk.violation('%s/%s' % (PID, k), w, case)
     chk.bounds = {'files': len(cases), 'max_loaded_set': 4}
     if chk.outcomes.get('equal', 0) == 0:
